@@ -28,6 +28,11 @@ def h_newcommand(parser, buf, mac, args, delim, pos):
         return []
     nargs = parser.get_text_expanded(args[2])
     nargs = int(nargs) if nargs.isdecimal() else 0
+    if nargs > 9:
+        # as in LaTeX: at most nine parameters
+        return utils.latex_error('illegal number of arguments'
+                                + ' in definition of macro ' + name,
+                                        pos, parser.latex, parser.parms)
     for a in [b for b in args[4] if type(b) is defs.ArgumentToken]:
         if a.arg < 1 or a.arg > nargs:
             return utils.latex_error('illegal argument #' + str(a.arg)
